@@ -308,7 +308,11 @@ def search(ctx, boost=1, focus=()):
             big, small = 2 * c_ + int(rng.choice([1, 3, 5, 4])), 2 * c_ - int(rng.choice([1, 3, 5, 7, 2]))
             small = max(small, 2 * int(np.ceil(r_)) + 3)
             pat = {"kind": "user", "radius": r_, "search": float(c_), "user_shape": [big, small] if k % 2 else [small, big]}
-        c = int(np.ceil(pat["search"]))
+            if (k // 20) % 2 == 1:
+                # the search range left at its default (half the diagonal of the template: the same for a template and its transpose)
+                hh, ww = int(rng.integers(7, 12)), int(rng.integers(13, 18))
+                pat = {"kind": "user", "radius": r_, "search": None, "user_shape": [hh, ww] if k % 2 else [ww, hh]}
+        c = int(np.ceil(pat["search"])) if pat["search"] is not None else int(np.ceil(np.hypot(*pat["user_shape"]) / 2))
         shape = [int(rng.integers(2 * c + 6, 64)), int(rng.integers(2 * c + 6, 64))]
         if k % 3 == 0:
             shape[1] = shape[0]
